@@ -542,7 +542,7 @@ def full_programs(draw, switches=frozenset(), max_lines=10, operand_depth=1, wit
                                   draw(st.lists(st.sampled_from(nums), min_size=1, max_size=3))]
                         else:
                             fg.kinds.add("single_kw_in_branch")
-                            s_ = [draw(st.sampled_from(["return", "end", "stop", "restore"]))]
+                            s_ = [draw(st.sampled_from(["return", "end", "stop", "restore", "tron", "troff"]))]
                         if s_[0] in ("rem", "data"):  # REM / unquoted DATA would swallow a following ELSE
                             s_ = ["let", ["var", "B"], ["num", "2", 2], False]
                         out_.append(s_)
